@@ -4,8 +4,9 @@ Engine: netsim.  Real: dns.query.{udp, receive_udp, send_udp, udp_with_fallback,
 receive_tcp, send_tcp, _net_read, _net_write, _connect, _matches_destination,
 _addresses_equal} over FakeSockets created by the library through socket_factory (or
 passed through sock=), and the dns.asyncquery twins over the real asyncio backend on a
-virtual-time event loop.  Stub: sockets/transports, the network, the peer.
-One fault script drives both worlds; outcomes must agree with an independent
+virtual-time event loop and over the real trio backend (trio's scheduler, cancel scopes and
+SocketStream on a clock that reads simulated time).  Stub: sockets/transports, the network, the peer.
+One fault script drives all three worlds; outcomes must agree with an independent
 acceptance model and with each other.
 """
 
@@ -40,9 +41,10 @@ COMPONENTS_REAL = [
     "dns.query.udp/receive_udp/send_udp/udp_with_fallback/tcp/receive_tcp/send_tcp/_net_read/_net_write/_connect/_udp_recv/_udp_send/_matches_destination/_addresses_equal/make_socket",
     "dns.asyncquery.udp/receive_udp/send_udp/udp_with_fallback/tcp/receive_tcp/send_tcp/_read_exactly",
     "dns._asyncio_backend (Backend.make_socket, _DatagramProtocol queue, _DatagramSocket, _StreamSocket, _maybe_wait_for), asyncio streams and wait_for",
+    "dns._trio_backend (Backend.make_socket, DatagramSocket, StreamSocket, _maybe_timeout) with the real trio run loop, cancel scopes and trio.SocketStream",
     "dns.message.from_wire / Message.is_response / dns.inet",
 ]
-COMPONENTS_STUB = ["sockets (FakeSocket via socket_factory / sock=)", "dns.query._wait_for (event pump on virtual time)", "asyncio selector/transports (VirtualLoop)", "network and peer"]
+COMPONENTS_STUB = ["sockets (FakeSocket via socket_factory / sock=)", "dns.query._wait_for (event pump on virtual time)", "asyncio selector/transports (VirtualLoop)", "trio.socket.socket (TrioFakeSocket, a trio.socket.SocketType) and the trio clock (reads the simulated clock, jumps to the next deadline when idle)", "network and peer"]
 EXPECTED_PROBES = [
     "udp_skipped_forged_source",
     "udp_skipped_wrong_id",
@@ -67,9 +69,35 @@ EXPECTED_PROBES = [
     "wait_started_exactly_at_deadline",
     "wait_started_with_zero_time_left",
     "udp_forged_scope_or_flow",
+    "trio_backend_exchange",
 ]
 
 _d = None
+
+# worlds: the sync code on fake sockets, the async twins on the asyncio backend (virtual-time event loop)
+# and on the trio backend (trio's own scheduler and cancel scopes on a clock reading simulated time)
+WORLDS = ["sync", "async"]
+_TRIO_NAMES = {"BrokenResourceError": "ConnectionResetError"}  # trio.SocketStream's documented translation of ECONNRESET
+
+
+def _arun(world):
+    return netsim.run_trio if world == "trio" else netsim.run_async
+
+
+def _backend(world):
+    return _d.asyncbackend.get_backend("trio" if world == "trio" else "asyncio")
+
+
+def _ename(world, exc):
+    n = type(exc).__name__
+    return _TRIO_NAMES.get(n, n) if world == "trio" else n
+
+
+def _worlds_agree(outs, what):
+    ws = [w for w in WORLDS if w in outs]
+    for w in ws[1:]:
+        if outs[w] != outs[ws[0]]:
+            raise Violation("C18:sync-async-differ", f"{what}: {ws[0]} {outs[ws[0]]} {w} {outs[w]}")
 
 
 def setup():
@@ -96,6 +124,12 @@ def setup():
         mod.time = VT
     dns.query.socket_factory = netsim.fake_socket_factory
     dns.query._wait_for = netsim.pump
+    if netsim.have_trio():
+        import dns._trio_backend
+
+        netsim.install_trio_seam()
+        if "trio" not in WORLDS:
+            WORLDS.append("trio")
     # seam audit
     VT.reset(5000.0)
     if dns.query._compute_times(2.0) != (5000.0, 5002.0) or dns.asyncquery._compute_times(1.0) != (5000.0, 5001.0):
@@ -711,7 +745,7 @@ def _run_udp_sync(case, q, mats):
         return ("exc", type(e).__name__, e), VT.elapsed(), net
 
 
-def _run_udp_async(case, q, mats):
+def _run_udp_async(case, q, mats, world="async"):
     dns = _d
     import dns.asyncbackend
 
@@ -720,7 +754,7 @@ def _run_udp_async(case, q, mats):
     VT.reset(7000.0)
     where, af = DESTS[case["dest"]]
     net.udp_scripts["*"] = UdpScript([(t, p, s) for t, p, s, _ in mats])
-    backend = dns.asyncbackend.get_backend("asyncio")
+    backend = _backend(world)
 
     async def go():
         kw = {}
@@ -744,12 +778,16 @@ def _run_udp_async(case, q, mats):
             raise_on_truncation=o["raise_on_truncation"], ignore_errors=o["ignore_errors"], backend=backend, **kw,
         )
 
-    r, exc = netsim.run_async(go, net)
+    r, exc = _arun(world)(go, net)
     if exc is None:
         return ("ok", r), VT.elapsed(), net
     if isinstance(exc, SimDeadlock):
         return ("hang",), VT.elapsed(), net
-    return ("exc", type(exc).__name__, exc), VT.elapsed(), net
+    return ("exc", _ename(world, exc), exc), VT.elapsed(), net
+
+
+def _run_udp_trio(case, q, mats):
+    return _run_udp_async(case, q, mats, "trio")
 
 
 def _check_udp_outcome(world, case, q, q_raw, mats, want, out, elapsed, res):
@@ -831,8 +869,8 @@ def _run_udp(case, res, log):
     mats = _udp_materialise(case, q, qwire)
     want, fired = expect_udp(case, q_raw, mats)
     outs = {}
-    for world, fn in (("sync", _run_udp_sync), ("async", _run_udp_async)):
-        if case.get("world") not in (None, world):
+    for world, fn in (("sync", _run_udp_sync), ("async", _run_udp_async), ("trio", _run_udp_trio)):
+        if case.get("world") not in (None, world) or world not in WORLDS:
             continue
         out, elapsed, net = fn(case, q, mats)
         res.sim_seconds += elapsed
@@ -841,8 +879,7 @@ def _run_udp(case, res, log):
             raise Violation("C18:request-bytes", f"[{world}] the datagram sent is not exactly the query's wire form ({len(sent)} sends)")
         outs[world] = _check_udp_outcome(world, case, q, q_raw, mats, want, out, elapsed, res)
         log.add(world, outs[world])
-    if len(outs) == 2 and outs["sync"] != outs["async"]:
-        raise Violation("C18:sync-async-differ", f"udp: sync {outs['sync']} async {outs['async']}")
+    _worlds_agree(outs, "udp")
     # probes / faults
     for f in fired:
         res.faults.inc("udp_" + f.split(":")[0])
@@ -1009,7 +1046,7 @@ def _tcp_recv_world(world, case, q, wires, rx):
                 break
         return results, s
     net.tcp_scripts["*"] = script
-    backend = dns.asyncbackend.get_backend("asyncio")
+    backend = _backend(world)
 
     async def go():
         s = await backend.make_socket(socket.AF_INET, socket.SOCK_STREAM, 0, None, ("10.0.0.1", 53), 5.0)
@@ -1020,10 +1057,10 @@ def _tcp_recv_world(world, case, q, wires, rx):
                     r, rt = await dns.asyncquery.receive_tcp(s, expiration, ignore_trailing=case["ignore_trailing"])
                     results.append(("ok", r))
                 except Exception as e:  # noqa: BLE001
-                    results.append(("exc", type(e).__name__))
+                    results.append(("exc", _ename(world, e)))
                     break
 
-    r, exc = netsim.run_async(go, net)
+    r, exc = _arun(world)(go, net)
     if isinstance(exc, SimDeadlock):
         results.append(("hang",))
     elif exc is not None:
@@ -1037,7 +1074,7 @@ def _run_tcp_recv(case, res, log):
     wires, frames, stream, data, rx = _tcp_recv_script(case, q)
     want = expect_tcp_recv(case, frames, len(data), rx)
     outs = {}
-    for world in ("sync", "async"):
+    for world in WORLDS:
         if case.get("world") not in (None, world):
             continue
         got, sock = _tcp_recv_world(world, case, q, wires, rx)
@@ -1123,7 +1160,7 @@ def _run_tcp_send(case, res, log):
     expected_bytes = len(wire).to_bytes(2, "big") + wire
     want, want_sent = expect_tcp_send(case, len(expected_bytes))
     what = q if case["as_message"] else wire
-    for world in ("sync", "async"):
+    for world in WORLDS:
         if case.get("world") not in (None, world):
             continue
         net = netsim.reset_network()
@@ -1141,15 +1178,15 @@ def _run_tcp_send(case, res, log):
                 got = ("exc", type(e).__name__)
         else:
             net.tcp_scripts["*"] = script
-            backend = dns.asyncbackend.get_backend("asyncio")
+            backend = _backend(world)
 
             async def go():
                 s = await backend.make_socket(socket.AF_INET, socket.SOCK_STREAM, 0, None, ("10.0.0.1", 53), 5.0)
                 async with s:
                     return await dns.asyncquery.send_tcp(s, what, VT.now + case["timeout"])
 
-            r, exc = netsim.run_async(go, net)
-            got = ("ok", r[0]) if exc is None else ("exc", type(exc).__name__)
+            r, exc = _arun(world)(go, net)
+            got = ("ok", r[0]) if exc is None else ("exc", _ename(world, exc))
         recv = bytes(script.received)
         if want[0] == "either":
             if got not in (("ok", len(expected_bytes)), ("exc", "Timeout")):
@@ -1164,7 +1201,7 @@ def _run_tcp_send(case, res, log):
         else:
             if got != ("exc", "Timeout"):
                 raise Violation("C18:tcp-send", f"[{world}] send_tcp -> {got}, expected Timeout (write blocked until the deadline)")
-            if world == "sync" and recv != expected_bytes[: len(recv)]:
+            if world in ("sync", "trio") and recv != expected_bytes[: len(recv)]:
                 raise Violation("C18:tcp-send-bytes", f"[{world}] peer received bytes that are not a prefix of the framed message")
         log.add(world, got)
         res.sim_seconds += VT.elapsed()
@@ -1272,7 +1309,7 @@ def _run_tcp_full_world(world, case, q, udp_mats=None):
     net.tcp_scripts["*"] = script
     if udp_mats is not None:
         net.udp_scripts["*"] = UdpScript(udp_mats)
-    backend = dns.asyncbackend.get_backend("asyncio")
+    backend = _backend(world)
     if world == "sync":
         try:
             if udp_mats is None:
@@ -1294,13 +1331,13 @@ def _run_tcp_full_world(world, case, q, udp_mats=None):
                 return await dns.asyncquery.tcp(q, where, timeout=case["timeout"], ignore_trailing=case["ignore_trailing"], backend=backend), None
             return await dns.asyncquery.udp_with_fallback(q, where, timeout=case["timeout"], ignore_trailing=case["ignore_trailing"], ignore_errors=True, ignore_unexpected=True, backend=backend)
 
-        r, exc = netsim.run_async(go, net)
+        r, exc = _arun(world)(go, net)
         if exc is None:
             out = ("ok", r[0], r[1])
         elif isinstance(exc, SimDeadlock):
             out = ("hang",)
         else:
-            out = ("exc", type(exc).__name__)
+            out = ("exc", _ename(world, exc))
     return out, script, w, VT.elapsed()
 
 
@@ -1328,7 +1365,7 @@ def _run_tcp_full(case, res, log):
             udp_mats = []
             expect_tcp_used = None  # UDP times out
     outs = {}
-    for world in ("sync", "async"):
+    for world in WORLDS:
         if case.get("world") not in (None, world):
             continue
         out, script, w, elapsed = _run_tcp_full_world(world, case, q, udp_mats)
@@ -1406,8 +1443,7 @@ def _run_tcp_full(case, res, log):
                     raise Violation("C18:timeout-time", f"{tag}: Timeout after {elapsed}s with timeout {budget}s")
             outs[world] = ("exc", name)
         log.add(world, outs[world])
-    if len(outs) == 2 and outs["sync"] != outs["async"]:
-        raise Violation("C18:sync-async-differ", f"{'fallback' if fallback else 'tcp'}: sync {outs['sync']} async {outs['async']}; connect={case['connect']} reply={case['reply']}")
+    _worlds_agree(outs, f"{'fallback' if fallback else 'tcp'} (connect={case['connect']} reply={case['reply']})")
     if case["connect"][0] == "refused":
         res.probes.inc("tcp_connect_refused")
         res.faults.inc("tcp_connect_refused")
@@ -1430,7 +1466,7 @@ def _run_tick(case, res, log):
     T = case["timeout"]
     src = ("10.0.0.1", 53)
     outs = {}
-    for world in ("sync", "async"):
+    for world in WORLDS:
         if case.get("world") not in (None, world):
             continue
         net = netsim.reset_network()
@@ -1443,7 +1479,7 @@ def _run_tick(case, res, log):
             g = genuine_wire(q, 2)
             frame = len(g).to_bytes(2, "big") + g
             net.tcp_scripts["*"] = TcpScript(connect=("ok", 0.0), rx=[(0.001, frame[:1]), (T - case["before"], frame[1:9]), (T + case["late"], frame[9:])], rx_after_request=True)
-        backend = dns.asyncbackend.get_backend("asyncio")
+        backend = _backend(world)
         VT.tick = case["tick"]
         try:
             try:
@@ -1460,7 +1496,7 @@ def _run_tick(case, res, log):
                             return await dns.asyncquery.udp(q, "10.0.0.1", timeout=T, ignore_errors=True, ignore_unexpected=True, backend=backend)
                         return await dns.asyncquery.tcp(q, "10.0.0.1", timeout=T, backend=backend)
 
-                    r, exc = netsim.run_async(go, net)
+                    r, exc = _arun(world)(go, net)
                     if exc is not None:
                         raise exc
                     out = ("ok",)
@@ -1494,6 +1530,18 @@ def _run_tick(case, res, log):
 def run_case(case, keep_log=False):
     res = RunResult()
     log = EventLog(keep=keep_log)
+    t0 = dict(netsim.TRIO_STATS) if netsim.have_trio() else None
+    try:
+        return _run_case(case, keep_log, res, log)
+    finally:
+        if t0 is not None:
+            if netsim.TRIO_STATS["runs"] > t0["runs"]:
+                res.probes.inc("trio_backend_exchange", netsim.TRIO_STATS["runs"] - t0["runs"])
+            if netsim.TRIO_STATS["jumps"] > t0["jumps"]:
+                res.faults.inc("trio_clock_jump_to_deadline", netsim.TRIO_STATS["jumps"] - t0["jumps"])
+
+
+def _run_case(case, keep_log, res, log):
     try:
         k = case["kind"]
         # the digest identifies the script, not only its outcome
@@ -1522,7 +1570,7 @@ def run_case(case, keep_log=False):
 
 def shrink(case):
     if case.get("world") is None:
-        for w in ("sync", "async"):
+        for w in WORLDS:
             c = copy.deepcopy(case)
             c["world"] = w
             yield c
